@@ -166,10 +166,11 @@ class Writer:
             d = info.get(f)
             if d is None:
                 continue
+            fname = "size_field" if f == "size" else f
             if d["kind"] == "int":
-                self.lines.append(f"def {prefix}.{f} : Field := {lean_field(d)}")
+                self.lines.append(f"def {prefix}.{fname} : Field := {lean_field(d)}")
             else:
-                self.lines.append(f"def {prefix}.{f} : Nat × Nat := ({d['off']}, {d['len']})")
+                self.lines.append(f"def {prefix}.{fname} : Nat × Nat := ({d['off']}, {d['len']})")
             self.fp[f"{prefix}.{f}"] = d
 
 
@@ -309,6 +310,49 @@ def main() -> int:
     lits = [v for v in func_literals(m_vmdkpy, "SparseDisk._read_compressed_grain") if isinstance(v, int)]
     w.natlist("compressed_grain_literals", lits)
     w.end("vmdk")
+
+    # ---------------- QCOW2
+    from dissect.hypervisor.disk import c_qcow2 as m_q
+    from dissect.hypervisor.disk import qcow2 as m_qpy
+    cq = m_q.c_qcow2
+    w.ns("qcow2")
+    w.struct("QCowHeader", cq.QCowHeader,
+             ["magic", "version", "backing_file_offset", "backing_file_size", "cluster_bits", "size", "crypt_method", "l1_size",
+              "l1_table_offset", "refcount_table_offset", "refcount_table_clusters", "nb_snapshots", "snapshots_offset",
+              "incompatible_features", "compatible_features", "autoclear_features", "refcount_order", "header_length", "compression_type"])
+    w.struct("QCowExtension", cq.QCowExtension, ["magic", "len"])
+    w.struct("QCowSnapshotHeader", cq.QCowSnapshotHeader,
+             ["l1_table_offset", "l1_size", "id_str_size", "name_size", "date_sec", "date_nsec", "vm_clock_nsec", "vm_state_size", "extra_data_size"])
+    w.struct("QCowSnapshotExtraData", cq.QCowSnapshotExtraData, ["vm_state_size_large", "disk_size", "icount"])
+    for cname in ("MIN_CLUSTER_BITS", "MAX_CLUSTER_BITS", "QCOW2_COMPRESSED_SECTOR_SIZE", "QCOW2_COMPRESSION_TYPE_ZLIB", "QCOW2_COMPRESSION_TYPE_ZSTD",
+                  "L2E_SIZE_NORMAL", "L2E_SIZE_EXTENDED", "L1E_OFFSET_MASK", "L2E_OFFSET_MASK", "L2E_COMPRESSED_OFFSET_SIZE_MASK",
+                  "QCOW_OFLAG_COPIED", "QCOW_OFLAG_COMPRESSED", "QCOW_OFLAG_ZERO", "QCOW_EXTL2_SUBCLUSTERS_PER_CLUSTER",
+                  "QCOW2_INCOMPAT_DATA_FILE", "QCOW2_INCOMPAT_EXTL2", "QCOW2_INCOMPAT_COMPRESSION", "QCOW2_INCOMPAT_DIRTY", "QCOW2_INCOMPAT_CORRUPT",
+                  "QCOW2_EXT_MAGIC_END", "QCOW2_EXT_MAGIC_BACKING_FORMAT", "QCOW2_EXT_MAGIC_FEATURE_TABLE", "QCOW2_EXT_MAGIC_CRYPTO_HEADER",
+                  "QCOW2_EXT_MAGIC_BITMAPS", "QCOW2_EXT_MAGIC_DATA_FILE"):
+        w.nat(cname, getattr(cq, cname))
+    w.nat("QCOW2_MAGIC", get(m_q, "QCOW2_MAGIC"))
+    w.nat("QCOW2_INCOMPAT_MASK", get(m_q, "QCOW2_INCOMPAT_MASK"))
+    w.natlist("NORMAL_SUBCLUSTER_TYPES", [int(x) for x in get(m_q, "NORMAL_SUBCLUSTER_TYPES")])
+    w.natlist("ZERO_SUBCLUSTER_TYPES", [int(x) for x in get(m_q, "ZERO_SUBCLUSTER_TYPES")])
+    w.natlist("UNALLOCATED_SUBCLUSTER_TYPES", [int(x) for x in get(m_q, "UNALLOCATED_SUBCLUSTER_TYPES")])
+    w.natlist("SubclusterType_values", [int(m) for m in cq.QCow2SubclusterType.__members__.values()])
+    w.strlist("SubclusterType_names", list(cq.QCow2SubclusterType.__members__.keys()))
+    w.natlist("ClusterType_values", [int(m) for m in cq.QCow2ClusterType.__members__.values()])
+    w.nat("ALLOW_NO_BACKING_FILE", get(m_qpy, "ALLOW_NO_BACKING_FILE"))
+    w.nat("HAS_ZSTD", 1 if get(m_qpy, "HAS_ZSTD") else 0)
+    # behaviour of the helper bit counters on a probe table (value, width) -> result
+    w.natlist("ctz_probe", [m_q.ctz(v, 32) for v in (0, 1, 2, 8, 0x80000000, 0xFFFFFFFF, 0x10)])
+    w.natlist("cto_probe", [m_q.cto(v, 32) for v in (0, 1, 3, 7, 0xFFFFFFFF, 0xFFFFFFFE, 0x0F)] if hasattr(m_q, "cto") else [])
+    lits = [v for v in func_literals(m_qpy, "QCow2.__init__") if isinstance(v, int)]
+    w.natlist("init_literals", lits)
+    lits = [v for v in func_literals(m_qpy, "QCow2._read_compressed") if isinstance(v, int)]
+    w.natlist("read_compressed_literals", lits)
+    lits = [v for v in func_literals(m_qpy, "QCow2._read_extensions") if isinstance(v, int)]
+    w.natlist("read_extensions_literals", lits)
+    lits = [v for v in func_literals(m_qpy, "QCow2._decompress") if isinstance(v, int)]
+    w.natlist("decompress_literals", lits)
+    w.end("qcow2")
 
     extra = HERE / "extract_more.py"
     if extra.exists():
